@@ -217,7 +217,7 @@ def run(h: Harness):
                 if not c.abstract and c.parent is not None and rng.random() < 0.4:
                     c.weight = rng.choice([0, 0, 2, 0.5])
             for a in range(len(spec.classes)):
-                kids = [c for c in spec.classes if c.parent == a]
+                kids = [c for i, c in enumerate(spec.classes) if c.parent == a and (i in spec.considered or c.abstract)]
                 if kids and all(c.weight is not None and c.weight == 0 for c in kids):
                     kids[0].weight = 1
             h.count("weighted-grammar")
